@@ -691,12 +691,21 @@ def decode_attributes(block: bytes, ctx: Ctx) -> dict:
             out['mp_unreach'] = {'afi': afi, 'safi': safi, 'nlri_raw': bytes(v[3:])}
         else:
             out['unknown'].append((flags & 0xE0, code, v.hex()))
+    # RFC 6793: from a NEW (4-byte) speaker AS4_PATH / AS4_AGGREGATOR are discarded; from an OLD speaker an
+    # AGGREGATOR whose AS is not AS_TRANS makes both AS4_AGGREGATOR and AS4_PATH void (section 4.2.3)
+    use_as4_path = not ctx.asn4 and 'as4_path' in out
+    use_as4_agg = False
+    if not ctx.asn4 and 'as4_aggregator' in out and 'aggregator' in out:
+        if out['aggregator'][0] == AS_TRANS:
+            use_as4_agg = True
+        else:
+            use_as4_path = False
     if 'as_path' in out:
-        if not ctx.asn4 and 'as4_path' in out:
+        if use_as4_path:
             out['as_path_merged'] = merge_as4(out['as_path'], out['as4_path'])
         else:
             out['as_path_merged'] = [(t, list(a)) for t, a in out['as_path']]
-    if 'aggregator' in out and not ctx.asn4 and 'as4_aggregator' in out and out['aggregator'][0] == AS_TRANS:
+    if use_as4_agg:
         out['aggregator_merged'] = out['as4_aggregator']
     elif 'aggregator' in out:
         out['aggregator_merged'] = out['aggregator']
